@@ -183,7 +183,9 @@ Inductive op :=
 | OClean (depth : Z)
 | OSave
 | OLoad (depth : Z) (pick : N)
-| OObserve (queries : list N).
+| OObserve (queries : list N)
+| OVerify (x : N) (with_header : bool) (path_ok : bool)   (* VerifyMerkleProof *)
+| OLocator (max : N).                                     (* GetLocatorHashes *)
 
 (* one lookup row: HashHeight; CheckHeader (height, flag, ok); PreviousHash; GetHeader ok *)
 Record lookup := mkLookup {
@@ -195,6 +197,8 @@ Inductive out :=
 | RUnit
 | RLoad (ok : bool)
 | RPanic                              (* only ever observed on the implementation *)
+| RVerify (ok : bool) (height : Z) (flag : bool)
+| RLocator (l : list N)
 | RSnap (tip_height : Z) (tip_hash : N) (tip_work : N) (chain : list N) (lks : list lookup).
 
 Definition tip_height (s : st) : Z := height_of (nodes s) (tip s).
@@ -295,6 +299,74 @@ Definition observe (s : st) (queries : list N) : out :=
   RSnap (tip_height s) (tip s) (work_of (nodes s) (tip s)) (chain_of (nodes s) (tip s))
         (map (lookup_of s) queries).
 
+(* VerifyMerkleProof: a proof that carries its header needs the header to be known (CheckHeader);
+   a proof that only names the block hash needs the header to be retrievable (GetHeader); then the
+   path must recompute that header's merkle root (and the index must lie inside the tree) *)
+Definition verify_proof (s : st) (x : N) (with_header path_ok : bool) : out :=
+  let k := lookup_of s x in
+  let known := if with_header then lk_ck_ok k else lk_get_ok k in
+  if known && path_ok then RVerify true (lk_ck_height k) (lk_ck_flag k) else RVerify false (-1) false.
+
+(* GetLocatorHashes (no chain split in range): the best chain from the tip's parent downwards with
+   steps 5, 10, 20, ... while the headers are in memory, at most [max] of them; plus the lowest
+   in-memory header of every other branch; sorted by height, highest first *)
+Fixpoint locator_walk (fuel : nat) (l : list node) (main : list N) (h delta : Z) (max : nat) (acc : list (Z * N))
+  : list (Z * N) :=
+  match fuel with
+  | O => acc
+  | S f =>
+      let x := nth (Z.to_nat h) main 0 in
+      match find_mem l x with
+      | None => acc
+      | Some _ =>
+          let acc' := acc ++ [(h, x)] in
+          if (max <=? length acc')%nat then acc'
+          else if (h <=? delta)%Z then acc'
+          else locator_walk f l main (h - delta) (delta * 2) max acc'
+      end
+  end.
+
+(* first header of each code-level branch that is held in memory: a header that starts a branch,
+   or whose parent has left memory *)
+Definition branch_base (l : list node) (n : node) : bool :=
+  n_mem n && (n_first n || match find_mem l (n_prev n) with Some _ => false | None => true end).
+
+(* the branch the tip belongs to: walk down continuation links *)
+Fixpoint tip_branch_base (fuel : nat) (l : list node) (x : N) : N :=
+  match fuel with
+  | O => x
+  | S f => match find_mem l x with
+           | None => x
+           | Some n => if branch_base l n then x else tip_branch_base f l (n_prev n)
+           end
+  end.
+
+Fixpoint insert_desc (p : Z * N) (l : list (Z * N)) : list (Z * N) :=
+  match l with
+  | [] => [p]
+  | q :: l' => if (fst q <? fst p)%Z then p :: l else q :: insert_desc p l'
+  end.
+
+Definition locator_entries (s : st) (max : N) : list (Z * N) :=
+  let l := nodes s in
+  let main := chain_of l (tip s) in
+  let h := tip_height s in
+  let own := if (h =? 0)%Z then [(0%Z, tip s)]
+             else locator_walk (length l) l main (h - 1) 5 (N.to_nat max) [] in
+  let tb := tip_branch_base (length l) l (tip s) in
+  let bases := map (fun n => (n_height n, n_hash n))
+                   (filter (fun n => branch_base l n && negb (n_hash n =? tb)) l) in
+  fold_right insert_desc [] (own ++ bases).
+
+(* every hash once: the first occurrence is kept *)
+Fixpoint dedupN (seen l : list N) : list N :=
+  match l with
+  | [] => []
+  | a :: r => if memN a seen then dedupN seen r else a :: dedupN (a :: seen) r
+  end.
+
+Definition locator (s : st) (max : N) : list N := dedupN [] (map snd (locator_entries s max)).
+
 Definition step (cfg : config) (s : st) (o : op) : st * out :=
   match o with
   | OSubmit h pick => submit cfg s h pick
@@ -304,6 +376,8 @@ Definition step (cfg : config) (s : st) (o : op) : st * out :=
   | OSave => save s
   | OLoad d pick => load s d pick
   | OObserve qs => (s, observe s qs)
+  | OVerify x wh ok => (s, verify_proof s x wh ok)
+  | OLocator max => (s, RLocator (locator s max))
   end.
 
 Fixpoint run (cfg : config) (s : st) (ops : list op) : st * list out :=
@@ -373,6 +447,12 @@ Definition out_ok (mask : N) (gh : list (N * Z)) (m i : out) : bool :=
   | RSnap h t w c lk, RSnap h' t' w' c' lk' =>
       (negb (bit mask 2) || ((h =? h')%Z && (t =? t') && (w =? w') && listN_eqb c c')) &&
       (negb (bit mask 3) || lookups_ok gh lk lk')
+  | RVerify a h f, RVerify a' h' f' =>
+      negb (bit mask 7) || (Bool.eqb a a' && (h =? h')%Z && Bool.eqb f f') ||
+      (* a header a Load dropped may still be known by height (never as best chain): a proof
+         that carries such a header may verify with that height *)
+      (negb a && a' && negb f' && existsb (fun g => (snd g =? h')%Z) gh)
+  | RLocator _, RLocator _ => true       (* judged by locator_ok below: the order among equal heights is free *)
   | _, _ => false
   end.
 
@@ -383,8 +463,39 @@ Definition out_sync (m i : out) : bool :=
   | RUnit, RUnit => true
   | RLoad a, RLoad b => Bool.eqb a b
   | RSnap _ t _ _ _, RSnap _ t' _ _ _ => t =? t'
+  | RVerify _ _ _, RVerify _ _ _ => true
+  | RLocator _, RLocator _ => true
   | _, _ => false
   end.
+
+(* C19 decider on the implementation's locator, against the model's tree: every hash is a
+   best-chain header or the base of a branch; no hash twice; the best-chain hashes come in strictly
+   descending height order and start with the tip's parent (genesis alone at height 0); not more
+   of them than requested (branch bases that happen to lie on the best chain not counted) *)
+Fixpoint nodupN (l : list N) : bool :=
+  match l with [] => true | x :: l' => negb (memN x l') && nodupN l' end.
+
+Fixpoint desc_heights (hs : list Z) : bool :=
+  match hs with
+  | a :: (b :: _) as r => (b <? a)%Z && desc_heights r
+  | _ => true
+  end.
+
+Definition locator_ok (s : st) (max : N) (impl : list N) : bool :=
+  let l := nodes s in
+  let main := chain_of l (tip s) in
+  let bases := map n_hash (filter (branch_base l) l) in
+  let onmain := filter (fun x => memN x main) impl in
+  let nbases_on_main := length (filter (fun x => memN x main) bases) in
+  nodupN impl &&
+  forallb (fun x => memN x main || memN x bases) impl &&
+  desc_heights (map (height_of l) onmain) &&
+  (if (tip_height s =? 0)%Z then listN_eqb impl [tip s]
+   else match onmain with
+        | x :: _ => x =? nth (Z.to_nat (tip_height s - 1)) main 0
+        | [] => false
+        end) &&
+  (length onmain <=? N.to_nat max + nbases_on_main)%nat.
 
 Definition op_pick (o : op) : option N :=
   match o with OSubmit _ p => Some p | OMark _ p => Some p | OLoad _ p => Some p | _ => None end.
@@ -396,6 +507,10 @@ Fixpoint run_ok (cfg : config) (mask : N) (s : st) (ops : list op) (obs : list o
       let '(s1, m) := step cfg s o in
       let tip_same := match op_pick o with Some p => tip s1 =? p | None => true end in
       out_ok mask (ghosts s1) m r && (negb (bit mask 2) || tip_same) &&
+      (match o, r with
+       | OLocator max, RLocator impl => negb (bit mask 8) || locator_ok s1 max impl
+       | _, _ => true
+       end) &&
       (if out_sync m r && tip_same then run_ok cfg mask s1 ops' obs' else true)
   | _, _ => false
   end.
@@ -501,7 +616,11 @@ Fixpoint first_diff (cfg : config) (mask : N) (s : st) (ops : list op) (obs : li
   | o :: ops', r :: obs' =>
       let '(s1, m) := step cfg s o in
       let tip_same := match op_pick o with Some p => tip s1 =? p | None => true end in
-      if out_ok mask (ghosts s1) m r && (negb (bit mask 2) || tip_same)
+      if out_ok mask (ghosts s1) m r && (negb (bit mask 2) || tip_same) &&
+         (match o, r with
+          | OLocator max, RLocator impl => negb (bit mask 8) || locator_ok s1 max impl
+          | _, _ => true
+          end)
       then (if out_sync m r && tip_same then first_diff cfg mask s1 ops' obs' (i + 1) else None)
       else Some (i, m, r, tip s1)
   | _, _ => None
